@@ -65,21 +65,21 @@ Proof.
     destruct (union_nat_in _ _ _ H1) as [H2|H2]; [right; now exists c, w|now left].
 Qed.
 
-Record diffs_ok (g : sgraph) (m : list (nat * list nat)) : Prop := {
+Record diffs_ok (F : nat -> Prop) (g : sgraph) (m : list (nat * list nat)) : Prop := {
   do_alive : forall k v, lookup_set m k = Some v -> sg_alive g k = true;
   do_lit : forall k v l, lookup_set m k = Some v -> sg_label g k = Some (GLit l) -> v = [Z.abs_nat l];
-  do_pos : forall k v f, lookup_set m k = Some v -> In f v -> 1 <= f
+  do_pos : forall k v f, lookup_set m k = Some v -> In f v -> F f
 }.
 
-Lemma lit_diffs_body_ok g m nx m' :
-  (forall z l, sg_label g z = Some (GLit l) -> l <> 0%Z) ->
-  diffs_ok g m -> lit_diffs_body g m nx = Some m' -> diffs_ok g m'.
+Lemma lit_diffs_body_ok (F : nat -> Prop) g m nx m' :
+  (forall z l, sg_label g z = Some (GLit l) -> F (Z.abs_nat l)) ->
+  diffs_ok F g m -> lit_diffs_body g m nx = Some m' -> diffs_ok F g m'.
 Proof.
   intros Hpos [H1 H2 H3] H. unfold lit_diffs_body in H.
   destruct (sg_label g nx) as [t|] eqn:Hl; [|discriminate].
   assert (Ha : sg_alive g nx = true) by (unfold sg_alive; now rewrite Hl).
-  assert (Hgen : forall v, (forall f, In f v -> 1 <= f) -> (forall l, t = GLit l -> v = [Z.abs_nat l]) ->
-                 diffs_ok g ((nx, v) :: m)).
+  assert (Hgen : forall v, (forall f, In f v -> F f) -> (forall l, t = GLit l -> v = [Z.abs_nat l]) ->
+                 diffs_ok F g ((nx, v) :: m)).
   { intros v Hv Hlit. constructor.
     - intros k w. rewrite lookup_set_cons. destruct (Nat.eqb_spec nx k) as [<-|Hne]; [intros _; exact Ha|apply H1].
     - intros k w l. rewrite lookup_set_cons. destruct (Nat.eqb_spec nx k) as [<-|Hne]; [|apply H2].
@@ -88,7 +88,7 @@ Proof.
       intros E Hf. injection E as <-. now apply Hv. }
   destruct t as [l| | | |].
   - injection H as <-. apply Hgen.
-    + intros f [<-|[]]. pose proof (Hpos nx l Hl). lia.
+    + intros f [<-|[]]. exact (Hpos nx l Hl).
     + intros l' E. now injection E as <-.
   - destruct (union_children m (sg_out g nx) []) as [v|] eqn:E; [|discriminate]. injection H as <-.
     apply Hgen; [|discriminate]. intros f Hf.
@@ -100,13 +100,13 @@ Proof.
   - injection H as <-. apply Hgen; [intros f []|discriminate].
 Qed.
 
-Lemma get_literal_diffs_ok g root m :
-  (forall z l, sg_label g z = Some (GLit l) -> l <> 0%Z) ->
-  get_literal_diffs g root = Some m -> diffs_ok g m.
+Lemma get_literal_diffs_ok (F : nat -> Prop) g root m :
+  (forall z l, sg_label g z = Some (GLit l) -> F (Z.abs_nat l)) ->
+  get_literal_diffs g root = Some m -> diffs_ok F g m.
 Proof.
   intros Hpos H. unfold get_literal_diffs in H.
-  apply (dfs_fold_invariant _ _ (diffs_ok g)) in H; [exact H| |].
-  - intros m1 x m2 Hm Hb. now apply (lit_diffs_body_ok g m1 x m2).
+  apply (dfs_fold_invariant _ _ (diffs_ok F g)) in H; [exact H| |].
+  - intros m1 x m2 Hm Hb. now apply (lit_diffs_body_ok F g m1 x m2).
   - constructor; intros; discriminate.
 Qed.
 
@@ -274,15 +274,28 @@ Qed.
 Section Balance.
 Variables (rc : bool) (ord : list nat -> list nat).
 Hypothesis Hord : forall l f, In f (ord l) -> In f l.
+Context {P : Z -> Prop}.
+Hypothesis Pnz : forall l, P l -> l <> 0%Z.
+Hypothesis Psym : forall l, P l -> P (- l)%Z.
+
+(* what is known about a feature |l| of a literal leaf *)
+Definition FOK (f : nat) : Prop := 1 <= f /\ @PF P f.
+
+Lemma P_abs l : P l -> FOK (Z.abs_nat l).
+Proof.
+  intros H. pose proof (Pnz l H). split; [lia|]. unfold PF. rewrite Zabs2Nat.id_abs.
+  destruct (Z.abs_spec l) as [[_ ->]|[_ ->]]; [split; [exact H|now apply Psym]|].
+  split; [now apply Psym|]. now rewrite Z.opp_involutive.
+Qed.
 
 Definition not_in_table (s : lstate) (nx : nat) : Prop :=
   forall f o, lookup_nat (ls_tri s) f = Some o -> o <> nx.
 
 Lemma balance_spec nx : forall children s s',
-  tables_ok s -> sg_label (ls_g s) nx = Some GOr -> not_in_table s nx ->
-  (forall c ms f, In (c, ms) children -> In f ms -> 1 <= f) ->
+  tables_ok P s -> sg_label (ls_g s) nx = Some GOr -> not_in_table s nx ->
+  (forall c ms f, In (c, ms) children -> In f ms -> FOK f) ->
   balance_or_children rc ord nx children s = Some s' ->
-  tables_ok s' /\ ext (ls_g s) (ls_g s') [nx] /\
+  tables_ok P s' /\ ext (ls_g s) (ls_g s') [nx] /\
   subst_rel (ls_g s') nx (sg_out (ls_g s) nx) (sg_out (ls_g s') nx).
 Proof.
   induction children as [|[child missing] r IH]; intros s s' Hok Hnx Hnt Hpos H; cbn [balance_or_children] in H.
@@ -293,7 +306,7 @@ Proof.
     destruct (ls_add_edge nx an s1) as [s2|] eqn:E2; [|discriminate].
     destruct (ls_add_edge an child s2) as [s3|] eqn:E3; [|discriminate].
     destruct (add_literal_nodes rc (ord missing) an s3) as [s4|] eqn:E4; [|discriminate].
-    destruct Hok as [[HI Hl Hp] Ht].
+    destruct Hok as [[HI Hl Hp Hj] Ht].
     set (g := ls_g s) in *.
     assert (Hax : sg_alive g nx = true) by (unfold sg_alive; now rewrite Hnx).
     pose proof (add_node_fresh rc _ _ _ _ HI Ha) as Hfresh.
@@ -308,12 +321,14 @@ Proof.
     assert (He1 : ext g (ls_g s1) [nx]).
     { apply (ext_trans _ g1); [exact (ext_weaken _ _ [] _ (fun y Hy => match Hy with end) He01)|].
       apply remove_edge_ext. now left. }
-    assert (Hc1 : core_ok s1).
+    assert (Hc1 : core_ok P s1).
     { constructor; cbn [s1 with_g ls_g ls_lits ls_tri].
       - apply remove_edge_Inv, (add_node_Inv rc _ _ _ _ HI Ha).
       - intros l z Hz. rewrite remove_edge_label. apply (ext_label_some _ _ _ _ _ He01). now apply Hl.
       - intros z l Hz. rewrite remove_edge_label in Hz. destruct (Nat.eq_dec z an) as [->|Hza]; [congruence|].
-        rewrite (add_node_label_old rc _ _ _ _ Ha z Hza) in Hz. now apply (Hp z). }
+        rewrite (add_node_label_old rc _ _ _ _ Ha z Hza) in Hz. now apply (Hp z).
+      - intros z l Hz. rewrite remove_edge_label in Hz. destruct (Nat.eq_dec z an) as [->|Hza]; [congruence|].
+        rewrite (add_node_label_old rc _ _ _ _ Ha z Hza) in Hz. now apply (Hj z). }
     assert (Ho1 : sg_out (ls_g s1) nx = remove1 child (sg_out g nx)).
     { cbn [s1 with_g ls_g]. rewrite remove_edge_out_same. now rewrite (add_node_out rc _ _ _ _ Ha). }
     assert (Han1' : sg_out (ls_g s1) an = []).
@@ -399,8 +414,8 @@ Proof.
 Qed.
 
 Lemma pass3_body_spec g0 m s nx s' :
-  diffs_ok g0 m -> tables_ok s -> grow g0 (ls_g s) ->
-  pass3_body rc ord m s nx = Some s' -> tables_ok s' /\ grow (ls_g s) (ls_g s').
+  diffs_ok FOK g0 m -> tables_ok P s -> grow g0 (ls_g s) ->
+  pass3_body rc ord m s nx = Some s' -> tables_ok P s' /\ grow (ls_g s) (ls_g s').
 Proof.
   intros Hm Hok Hg H. unfold pass3_body in H.
   destruct (sg_label (ls_g s) nx) as [t|] eqn:Hnx; [|discriminate].
@@ -416,29 +431,29 @@ Proof.
     injection Hfst as -> ->.
     inversion Hcd as [|? ? Hn Hcd']; subst. inversion Hcd' as [|? ? Hp _]; subst. cbn [fst snd] in Hn, Hp.
     assert (Hvn : vn = [f]).
-    { pose proof (do_alive _ _ Hm n vn Hn) as Han.
-      rewrite (do_lit _ _ Hm n vn (- Z.of_nat f)%Z Hn); [now rewrite abs_nat_opp_of_nat|].
+    { pose proof (do_alive _ _ _ Hm n vn Hn) as Han.
+      rewrite (do_lit _ _ _ Hm n vn (- Z.of_nat f)%Z Hn); [now rewrite abs_nat_opp_of_nat|].
       rewrite <- (gr_label _ _ Hg n Han). exact Hln. }
     assert (Hvp : vp = [f]).
-    { pose proof (do_alive _ _ Hm p vp Hp) as Hap.
-      rewrite (do_lit _ _ Hm p vp (Z.of_nat f) Hp); [now rewrite Zabs2Nat.id|].
+    { pose proof (do_alive _ _ _ Hm p vp Hp) as Hap.
+      rewrite (do_lit _ _ _ Hm p vp (Z.of_nat f) Hp); [now rewrite Zabs2Nat.id|].
       rewrite <- (gr_label _ _ Hg p Hap). exact Hlp. }
     subst vn vp. rewrite diff_go_tri in H. cbn [balance_or_children] in H. injection H as <-.
     split; [exact Hok|apply grow_refl].
   - destruct (balance_spec nx (diff_go [] cd) s s' Hok Hnx (in_table_false _ _ Etab)) as [Hok' [He Hs]]; [|exact H|].
     { intros c ms f Hin Hf. destruct (diff_go_In cd [] c ms f Hin Hf) as [_ [cv [Hcv Hfv]]].
       cbn [app] in Hcv. rewrite Forall_forall in Hcd.
-      exact (do_pos _ _ Hm (fst cv) (snd cv) f (Hcd cv Hcv) Hfv). }
+      exact (do_pos _ _ _ Hm (fst cv) (snd cv) f (Hcd cv Hcv) Hfv). }
     split; [exact Hok'|]. now apply (balance_grow _ _ nx).
 Qed.
 
-Theorem pass3_grow s root s' : tables_ok s -> pass3 rc ord s root = Some s' ->
-  tables_ok s' /\ grow (ls_g s) (ls_g s').
+Theorem pass3_grow s root s' : tables_ok P s -> pass3 rc ord s root = Some s' ->
+  tables_ok P s' /\ grow (ls_g s) (ls_g s').
 Proof.
   intros Hok H. unfold pass3 in H.
   destruct (get_literal_diffs (ls_g s) root) as [m|] eqn:Em; [|discriminate].
-  pose proof (get_literal_diffs_ok _ _ _ (co_pos _ (proj1 Hok)) Em) as Hm.
-  apply (dfs_fold_invariant _ _ (fun s1 => tables_ok s1 /\ grow (ls_g s) (ls_g s1))) in H; [exact H| |].
+  pose proof (get_literal_diffs_ok FOK _ _ _ (fun z l Hz => P_abs l (co_pos _ _ (proj1 Hok) z l Hz)) Em) as Hm.
+  apply (dfs_fold_invariant _ _ (fun s1 => tables_ok P s1 /\ grow (ls_g s) (ls_g s1))) in H; [exact H| |].
   - intros s1 x s2 [Hok1 Hg1] Hb. destruct (pass3_body_spec (ls_g s) m s1 x s2 Hm Hok1 Hg1 Hb) as [Hok2 Hg2].
     split; [exact Hok2|]. exact (grow_trans _ _ _ Hg1 Hg2).
   - split; [exact Hok|apply grow_refl].
